@@ -466,6 +466,100 @@ fn flush(rep: &mut Report) {
     rep.hit_n("count_law_plus_one_cases", PLUS_ONE.with(|c| c.replace(0)));
 }
 
+// ------------------------------------------------------------------ a source that is fed later
+/// Exhaustion reporting over a source whose own exhaustion is NOT sticky: a queue shared with the
+/// harness, exhausted while empty, live again once fed (a channel; in-library: an up-sampling
+/// converter past the end of its source). "Exhausted exactly when the source is exhausted and the
+/// next output needs a further source frame" is a statement about the source NOW. Ratios are
+/// dyadic, so "needs a further frame" (floor(n*r) > frames pulled so far) is decided exactly.
+struct LiveSource {
+    q: Rc<std::cell::RefCell<std::collections::VecDeque<f64>>>,
+    pulls: Rc<Cell<u64>>,
+}
+impl Signal for LiveSource {
+    type Frame = f64;
+    fn next(&mut self) -> f64 {
+        self.pulls.set(self.pulls.get() + 1);
+        self.q.borrow_mut().pop_front().unwrap_or(0.0)
+    }
+    fn is_exhausted(&self) -> bool {
+        self.q.borrow().is_empty()
+    }
+}
+fn live_exhaustion(rep: &mut Report, seed: u64, n_hist: u64) {
+    let mut revived = 0u64;
+    for h in 0..n_hist {
+        let mut rng = Rng::derive(seed, &[81, h]);
+        let r = [0.5f64, 1.0, 1.5, 0.25, 2.0, 0.75, 3.0][rng.usize_below(7)];
+        let linear = rng.bool();
+        let steps = 20 + rng.usize_below(60);
+        let feeds: Vec<usize> = (0..steps).map(|_| if rng.chance(1, 3) { rng.usize_below(5) } else { 0 }).collect();
+        let case = format!("live=1;seed={};h={}", seed, h);
+        let res = vmon::catch(std::panic::AssertUnwindSafe(|| -> Result<u64, String> {
+            let q = Rc::new(std::cell::RefCell::new(std::collections::VecDeque::new()));
+            let pulls = Rc::new(Cell::new(0u64));
+            let mut id = 1.0f64;
+            for _ in 0..3 {
+                q.borrow_mut().push_back(id);
+                id += 1.0;
+            }
+            let mut src = LiveSource { q: q.clone(), pulls: pulls.clone() };
+            let (a, b) = (src.next(), if linear { src.next() } else { 0.0 });
+            let prime = pulls.get();
+            enum C {
+                F(Converter<LiveSource, Floor<f64>>),
+                L(Converter<LiveSource, Linear<f64>>),
+            }
+            let mut conv = if linear { C::L(src.scale_hz(Linear::new(a, b), r)) } else { C::F(src.scale_hz(Floor::new(a), r)) };
+            let mut revived = 0u64;
+            let mut was_exhausted = false;
+            for (n, feed) in feeds.iter().enumerate() {
+                for _ in 0..*feed {
+                    q.borrow_mut().push_back(id);
+                    id += 1.0;
+                }
+                let done = pulls.get() - prime;
+                let need = (n as f64 * r).floor() as u64 > done;
+                let want = need && q.borrow().is_empty();
+                let got = match &conv {
+                    C::F(c) => c.is_exhausted(),
+                    C::L(c) => c.is_exhausted(),
+                };
+                if got != want {
+                    return Err(format!("{} ratio {}: before output {} is_exhausted() = {} but the source {} ({} frames queued) and the next output {} a further frame (position {}, {} pulled)", if linear { "linear" } else { "floor" }, r, n, got, if q.borrow().is_empty() { "is exhausted" } else { "is NOT exhausted now" }, q.borrow().len(), if need { "needs" } else { "does not need" }, n as f64 * r, done));
+                }
+                if was_exhausted && !want && *feed > 0 {
+                    revived += 1;
+                }
+                was_exhausted = want;
+                match &mut conv {
+                    C::F(c) => {
+                        c.next();
+                    }
+                    C::L(c) => {
+                        c.next();
+                    }
+                }
+            }
+            Ok(revived)
+        }));
+        match res {
+            Ok(Ok(k)) => revived += k,
+            Ok(Err(d)) => {
+                rep.violation("converter|live_source|is_exhausted", d, case);
+                return;
+            }
+            Err(m) => {
+                rep.violation("converter|live_source|panic", m, case);
+                return;
+            }
+        }
+        rep.eval(steps as u64);
+        rep.nontrivial(vmon::hash_combine(0x6c76, vmon::hash_combine(seed, h)));
+    }
+    rep.hit_n("source_fed_again_after_converter_reported_exhaustion", revived);
+}
+
 fn main() {
     let cli = Cli::parse();
     let t0 = Instant::now();
@@ -473,6 +567,11 @@ fn main() {
     let consts = const_ratios();
     if let Some(cs) = &cli.case {
         let m = vmon::cli::parse_case(cs);
+        if m.contains_key("live") {
+            live_exhaustion(&mut rep, m["seed"].parse().unwrap(), m["h"].parse::<u64>().unwrap() + 1);
+            flush(&mut rep);
+            finish(&cli, rep, t0);
+        }
         let interp = if m["interp"] == "Floor" { Interp::Floor } else { Interp::Linear };
         let len: i64 = m["len"].parse().unwrap();
         let n: u64 = m["n"].parse().unwrap();
@@ -493,6 +592,8 @@ fn main() {
         flush(&mut rep);
         finish(&cli, rep, t0);
     }
+    rep.oblige("source_fed_again_after_converter_reported_exhaustion", 1);
+    live_exhaustion(&mut rep, cli.seed, cli.t(2_000, 200_000));
     rep.oblige("output_pulled_three_or_more_frames", 1);
     rep.oblige("integer_positions_crossed_with_non_dyadic_ratio", 1000);
     rep.oblige("exhaustion_with_R_0", 1);
